@@ -34,6 +34,58 @@ type skel struct {
 	resBool  bool // the single result is `bool`
 	mode     string
 	notes    []string
+
+	// generalisations used by other skeleton families (cache.go); all nil/zero for the loader
+	callHook   func(s *skel, c *ast.CallExpr) (term string, nres int, handled bool, err error)
+	exprHook   func(s *skel, e ast.Expr, want string) (v string, handled bool, err error)
+	stmtHook   func(s *skel, st ast.Stmt, indent int) (handled bool)
+	resTwo     bool                    // results are (string, error): rendered as a pair
+	nested     bool                    // primitives return ((r1, r2), w) instead of (r1, r2, w)
+	bindDefers bool                    // deferred calls are bound to a variable at the defer statement
+	extraBinds []string                // arguments the last rendered call rebinds (slices it writes to)
+	names      map[types.Object]string // Lean name per Go object (shadowing-safe)
+	used       map[string]int
+	ndefer     int
+}
+
+// ident returns the Lean name of a Go identifier.  The first object with a given name keeps the
+// name; a different object with the same name (a variable that shadows another one, as `err` in
+// `n, err := f.Read(buf)` inside a block) gets a numbered name, so that code after the block still
+// refers to the outer variable.
+func (s *skel) ident(id *ast.Ident) string {
+	if id.Name == "_" {
+		return "_"
+	}
+	obj := s.p.TypesInfo.ObjectOf(id)
+	if obj == nil {
+		return leanIdent(id.Name)
+	}
+	if _, isVar := obj.(*types.Var); !isVar {
+		return leanIdent(id.Name)
+	}
+	if s.names == nil {
+		s.names = map[types.Object]string{}
+		s.used = map[string]int{}
+	}
+	if n, ok := s.names[obj]; ok {
+		return n
+	}
+	base := leanIdent(id.Name)
+	n := base
+	if k := s.used[base]; k > 0 {
+		n = fmt.Sprintf("%s_%d", base, k)
+	}
+	s.used[base]++
+	s.names[obj] = n
+	return n
+}
+
+// lhsName renders an assignment target that is a plain identifier.
+func (s *skel) lhsName(e ast.Expr) string {
+	if id, ok := e.(*ast.Ident); ok {
+		return s.ident(id)
+	}
+	return leanIdent(exprText(e))
 }
 
 func (s *skel) typeOf(e ast.Expr) types.Type {
@@ -86,6 +138,11 @@ func (s *skel) expr(e ast.Expr, want string) (string, error) {
 		}
 		return "false", nil
 	}
+	if s.exprHook != nil {
+		if v, handled, err := s.exprHook(s, e, want); handled {
+			return v, err
+		}
+	}
 	switch x := e.(type) {
 	case *ast.ParenExpr:
 		return s.expr(x.X, want)
@@ -97,15 +154,15 @@ func (s *skel) expr(e ast.Expr, want string) (string, error) {
 			return "none", nil
 		}
 		if want == "err" && isErrnoType(s.typeOf(x)) {
-			return fmt.Sprintf("(GoErr.errno %s)", leanIdent(x.Name)), nil
+			return fmt.Sprintf("(GoErr.errno %s)", s.ident(x)), nil
 		}
-		return leanIdent(x.Name), nil
+		return s.ident(x), nil
 	case *ast.SelectorExpr:
 		if id, ok := x.X.(*ast.Ident); ok {
 			// field of a struct-typed parameter or variable
 			if _, isVar := s.p.TypesInfo.ObjectOf(id).(*types.Var); isVar {
 				f := x.Sel.Name
-				return fmt.Sprintf("%s.%s", leanIdent(id.Name), strings.ToLower(f[:1])+f[1:]), nil
+				return fmt.Sprintf("%s.%s", s.ident(id), strings.ToLower(f[:1])+f[1:]), nil
 			}
 		}
 		return "", unsupportedExpr{exprText(e)}
@@ -267,6 +324,12 @@ func (s *skel) cond(e ast.Expr) (string, error) {
 // call renders a call that may touch the world.  It returns the Lean term (applied to `w`), the
 // number of Go results, and whether the term returns the world.
 func (s *skel) call(c *ast.CallExpr) (term string, nres int, err error) {
+	s.extraBinds = nil
+	if s.callHook != nil {
+		if term, nres, handled, err := s.callHook(s, c); handled {
+			return term, nres, err
+		}
+	}
 	fun := exprText(c.Fun)
 	args := func(want ...string) ([]string, error) {
 		out := make([]string, len(c.Args))
@@ -444,6 +507,10 @@ func (s *skel) stmts(list []ast.Stmt, indent int, defers []string) {
 		return
 	}
 	st, rest := list[0], list[1:]
+	if s.stmtHook != nil && s.stmtHook(s, st, indent) {
+		s.stmts(rest, indent, defers)
+		return
+	}
 	switch x := st.(type) {
 	case *ast.ReturnStmt:
 		s.ret(x, indent, defers)
@@ -454,6 +521,14 @@ func (s *skel) stmts(list []ast.Stmt, indent int, defers []string) {
 			txt := srcText(s.p, x)
 			s.notes = append(s.notes, "opaque defer: "+txt)
 			s.stmts(rest, indent, append(append([]string{}, defers...), "U.step "+leanString(txt)))
+			return
+		}
+		if s.bindDefers {
+			// the deferred call's receiver and arguments are evaluated now
+			s.ndefer++
+			name := fmt.Sprintf("dfr%d", s.ndefer)
+			s.line(indent, "let %s : World → World := deferred (%s)  -- %s", name, strings.TrimSuffix(term, " w"), srcText(s.p, x))
+			s.stmts(rest, indent, append(append([]string{}, defers...), name))
 			return
 		}
 		s.line(indent, "-- %s", srcText(s.p, x))
@@ -489,11 +564,23 @@ func (s *skel) stmts(list []ast.Stmt, indent int, defers []string) {
 		if len(x.Rhs) == 1 {
 			if c, ok := x.Rhs[0].(*ast.CallExpr); ok {
 				if term, nres, err := s.call(c); err == nil && nres >= 0 {
+					extra := s.extraBinds
 					var names []string
 					for _, l := range x.Lhs {
-						names = append(names, leanIdent(exprText(l)))
+						names = append(names, s.lhsName(l))
 					}
-					if nres == 3 && len(names) == 3 {
+					if s.nested && strings.HasSuffix(term, " w") {
+						pat := strings.Join(names, ", ")
+						if len(names) > 1 {
+							pat = "(" + pat + ")"
+						}
+						for _, e := range extra {
+							pat += ", " + e
+						}
+						s.line(indent, "let (%s, w) := %s  -- %s", pat, term, srcText(s.p, x))
+					} else if s.nested && len(names) == 1 {
+						s.line(indent, "let %s := %s  -- %s", names[0], term, srcText(s.p, x))
+					} else if nres == 3 && len(names) == 3 {
 						// r1, r2, errno: the kernel model returns (r1, errno, world)
 						if names[1] != "_" {
 							s.opaque(indent, x, "second result of a raw syscall is used")
@@ -516,7 +603,7 @@ func (s *skel) stmts(list []ast.Stmt, indent int, defers []string) {
 					want = "err"
 				}
 				if v, err := s.expr(x.Rhs[0], want); err == nil {
-					s.line(indent, "let %s := %s  -- %s", leanIdent(exprText(x.Lhs[0])), v, srcText(s.p, x))
+					s.line(indent, "let %s := %s  -- %s", s.lhsName(x.Lhs[0]), v, srcText(s.p, x))
 					s.stmts(rest, indent, defers)
 					return
 				}
@@ -543,6 +630,9 @@ func (s *skel) stmts(list []ast.Stmt, indent int, defers []string) {
 					s.line(indent, "-- %s  (empty function: no step)", srcText(s.p, x))
 				case nres == 0:
 					s.line(indent, "let w := %s  -- %s", term, srcText(s.p, x))
+				case s.nested && strings.HasSuffix(term, " w"):
+					// the results are dropped, the step happens
+					s.line(indent, "let (_, w) := %s  -- %s", term, srcText(s.p, x))
 				default:
 					s.opaque(indent, x, "results of a call are discarded")
 				}
@@ -559,7 +649,7 @@ func (s *skel) stmts(list []ast.Stmt, indent int, defers []string) {
 			if len(vs.Names) == 1 && len(vs.Values) == 0 {
 				if at, ok := vs.Type.(*ast.ArrayType); ok && at.Len != nil {
 					if n, ok := constUint(s.p, at.Len); ok {
-						s.line(indent, "let %s := List.replicate %d 0  -- %s", leanIdent(vs.Names[0].Name), n, srcText(s.p, x))
+						s.line(indent, "let %s := List.replicate %d 0  -- %s", s.ident(vs.Names[0]), n, srcText(s.p, x))
 						s.stmts(rest, indent, defers)
 						return
 					}
@@ -579,6 +669,14 @@ func (s *skel) ret(x *ast.ReturnStmt, indent int, defers []string) {
 	if len(x.Results) == 0 {
 		s.line(indent, "((), %s)", w)
 		return
+	}
+	if len(x.Results) == 2 && s.resTwo {
+		a, err1 := s.expr(x.Results[0], "")
+		b, err2 := s.expr(x.Results[1], "err")
+		if err1 == nil && err2 == nil {
+			s.line(indent, "((%s, %s), %s)  -- %s", a, b, w, srcText(s.p, x))
+			return
+		}
 	}
 	if len(x.Results) != 1 {
 		s.opaque(indent, x, "multiple results")
@@ -607,6 +705,9 @@ func (s *skel) ret(x *ast.ReturnStmt, indent int, defers []string) {
 }
 
 func (s *skel) noReturn() string {
+	if s.resTwo {
+		return "U.noReturn2"
+	}
 	if s.resBool {
 		return "U.noReturnBool"
 	}
@@ -682,7 +783,7 @@ func genSkeletons(t *target, facts map[string]interface{}) error {
 					notes = append(notes, fmt.Sprintf("%s: parameter type %s outside the subset", name, ft))
 				}
 				for _, n := range f.Names {
-					params = append(params, fmt.Sprintf("(%s : %s)", leanIdent(n.Name), lt))
+					params = append(params, fmt.Sprintf("(%s : %s)", s.ident(n), lt))
 				}
 			}
 		}
